@@ -211,6 +211,19 @@ theorem seenAlong (W : World U) (h : InvC U s hb C) {q c : Blk} {l : List Blk} (
       have := h.seenClosed _ _ hs hqU (by omega)
       exact ih (by rw [hqid]; exact this) (by rw [hqid]; exact hqU') z hz
 
+/-- a block reached from the head by parent links lies on the canonical chain, which splits there -/
+theorem memOfPath (h : InvC U s hb C) {l : List Blk} {o : Blk} (hp : Path s.store hb l o) :
+    o ∈ C ++ [s.genesis] ∧ ∃ R, C = l ++ R ∧ Path s.store o R s.genesis := by
+  have hn := hp.number
+  obtain ⟨l1, l2, z, hl, hp1, hp2, hz⟩ := h.path.split o.number (by rw [h.genNum]; omega) (by omega)
+  have := hp.det hp1 hz.symm
+  obtain ⟨h1, h2⟩ := this
+  subst h1 h2
+  refine ⟨?_, l2, hl, hp2⟩
+  rcases hp2.head_eq with ⟨h1, h2⟩ | ⟨l'', h1⟩
+  · rw [h2]; simp
+  · rw [hl, h1]; simp
+
 end InvC
 
 /-! ### the new-chain lemma -/
